@@ -175,6 +175,10 @@ pub enum Ev {
     /// a select! in the stream loop polled the stream while it had an item ready (coverage probe)
     GateOpened { gate: u32 },
     FaultFired { actor: ActorIdx, what: u8 },
+    /// a parent registered a child (add_child / register_child)
+    ChildAdded { parent: ActorIdx, parent_inst: u32, child: ActorIdx, key: ChildKey },
+    /// a parent executed send_to_children
+    Broadcast { parent: ActorIdx, parent_inst: u32, key: ChildKey, id: u64 },
     Phase(Phase),
     Task(TaskE),
 }
@@ -244,6 +248,8 @@ fn ev_code(ev: &Ev) -> u64 {
         Ev::GateOpened { gate } => 15 ^ (*gate as u64) << 8,
         Ev::FaultFired { actor, what } => 16 ^ (*actor as u64) << 8 ^ (*what as u64) << 40,
         Ev::Phase(p) => 17 ^ (*p as u64) << 8,
+        Ev::ChildAdded { parent, child, key, .. } => 20 ^ (*parent as u64) << 8 ^ (*child as u64) << 28 ^ (*key as u64) << 48,
+        Ev::Broadcast { parent, key, id, .. } => (21 ^ (*parent as u64) << 8 ^ (*key as u64) << 48).wrapping_add(id.rotate_left(13)),
         Ev::Task(_) => 18, // task events are hashed by simrt itself
     }
 }
